@@ -731,12 +731,14 @@ def check_icp_gen(ctx: Ctx, spec, use_model=True):
             ctx.fail(case, f"valid: ICP result is not a valid SE3 element (|q|={nq!r})")
             return False
         En = U.mscd(U.apply_vec(X, S64), T64)
-        tolE = 64 * eps * (E0 + D * math.sqrt(E0) + eps * D * D) + 1e-300
+        # the returned points are accurate to delta = 256·eps·D; a squared distance d² then moves by at most 2·delta·d + delta²
+        delta = 256 * eps * D
+        tolE = delta * delta + 2 * delta * math.sqrt(E0) + 64 * eps * E0 + 1e-300
         if not (En <= E0 + tolE):
             ctx.fail(case, f"monotone: ICP result has mean squared closest-point distance {En:.6e} > {E0:.6e} of its initial transform "
                            f"(passes={n}, stepper={spec['stepper']}, N={spec['N']})")
             ok = False
-        if prevE is not None and not (En <= prevE + 64 * eps * (prevE + D * math.sqrt(prevE) + eps * D * D)):
+        if prevE is not None and not (En <= prevE + delta * delta + 2 * delta * math.sqrt(prevE) + 64 * eps * prevE):
             ctx.fail(case, f"monotone: mean squared closest-point distance rises from {prevE:.6e} to {En:.6e} between {n - 1} and {n} passes")
             ok = False
         prevE = En
@@ -1001,12 +1003,12 @@ def run_epnp(ctx: Ctx, specs):
 def run(ctx: Ctx):
     rng = ctx.rng
     cases = corner_cases(rng)
-    n = ctx.pick(260, 8000)
+    n = ctx.pick(420, 16000)
     cases += [random_align_case(rng) for _ in range(n)]
     run_align(ctx, cases)
-    specs = icp_corner_specs() + [random_icp_spec(rng) for _ in range(ctx.pick(45, 1200))]
+    specs = icp_corner_specs() + [random_icp_spec(rng) for _ in range(ctx.pick(70, 2500))]
     run_icp(ctx, specs)
-    especs = epnp_corner_specs() + [epnp_spec(rng) for _ in range(ctx.pick(70, 2500))]
+    especs = epnp_corner_specs() + [epnp_spec(rng) for _ in range(ctx.pick(110, 5000))]
     run_epnp(ctx, especs)
     ctx.notes.append("largest error/tolerance ratios: " + ", ".join(f"{k}={v:.3g}" for k, v in sorted(RATIOS.items())))
 
